@@ -185,6 +185,18 @@ Theorem corruption_framing_flg_partial :
 Proof. exact flg_ignored_bits_member. Qed.
 Print Assumptions corruption_framing_flg_partial.
 
+(** Capacity: the reader's block buffer holds MaxBlockSize bytes and readToEOF
+    checks for further data exactly when the buffer is full (the guard constant
+    is read off bgzf/cache.go by gen/).  A member — or members joined by a
+    corrupted BSIZE — that inflates to more is rejected; this is what
+    [corruption_framing_bsize] relies on when the joined data is too large. *)
+Theorem reader_capacity_guard :
+  bgzf_readToEOF_guard = bgzf_MaxBlockSize /\
+  forall (inflate : list Z -> option (list Z * list Z)) (crc32 : list Z -> Z) f bdy acc out,
+    gz_body inflate crc32 f bdy acc = Some out -> zlen out <= bgzf_MaxBlockSize.
+Proof. exact capacity_gen. Qed.
+Print Assumptions reader_capacity_guard.
+
 (** The code in /repo is the repaired one. *)
 Theorem reader_source_strict : bgzf_reader_strict = true.
 Proof. exact reader_strict. Qed.
